@@ -4,6 +4,11 @@
  * flushed, so that a crash loses only the request that caused it.
  *
  *   ser <idx> <V> | serbuf <idx> <V> <cap> | de <idx> <hex|-> | rt <idx> <V> | probe <idx>
+ *   dereuse <idx> <hexA> <hexB>   decode A into an object, then B into the SAME object; answer as `de B`
+ *   rtreuse <idx> <V1> | <V2>     round trip of V1, then V2 through the SAME source and destination objects; answer as `rt V2`
+ *   api <idx>                     C only: return codes of the generated functions for NULL arguments
+ * `de` is also answered for other spellings of the same call (input as a sub-range of a larger buffer, NULL buffer of
+ * size 0, _initialize_); an alternative that differs from the primary answer is reported as err:spelling:<name>:<answer>.
  */
 #ifndef CODEC_SHIM_RT_H
 #define CODEC_SHIM_RT_H
@@ -61,6 +66,22 @@ static double p_f64(P* p)
     double out;
     memcpy(&out, &bits, 8);
     return out;
+}
+/* value of a field whose storage is `float` (float16 / float32 fields): finite values and infinities by conversion; a NaN
+   is rebuilt BIT BY BIT from the leading 23 mantissa bits of the binary64 token, so that signalling NaNs and NaNs whose
+   payload sits in the low mantissa bits only reach the generated code as such (a conversion would quieten them) */
+static float p_f32(P* p)
+{
+    const double d = p_f64(p);
+    if (d == d) { return (float) d; }
+    uint64_t b;
+    memcpy(&b, &d, 8);
+    uint32_t m = (uint32_t) ((b >> 29) & UINT32_C(0x7FFFFF));
+    if (m == 0) { m = UINT32_C(0x400000); }    /* payload below binary32's reach: what the hardware conversion gives */
+    const uint32_t fb = (uint32_t) ((b >> 63) << 31) | UINT32_C(0x7F800000) | m;
+    float f;
+    memcpy(&f, &fb, 4);
+    return f;
 }
 static void p_void(P* p) { p_expect(p, '_'); }
 /* skip one token or bracketed group (value of an invalid union option) */
@@ -123,6 +144,33 @@ static void o_hex(const uint8_t* d, size_t n)
     g_out[g_out_len] = 0;
 }
 static void o_reset(void) { g_out_len = 0; if (g_out) { g_out[0] = 0; } }
+/* the answer written so far as a heap copy; the answer buffer starts again */
+static char* o_take(void)
+{
+    char* c = (char*) malloc(g_out_len + 1);
+    if (!c) { abort(); }
+    memcpy(c, g_out ? g_out : "", g_out_len);
+    c[g_out_len] = 0;
+    o_reset();
+    return c;
+}
+/* the answer buffer holds the answer of an alternative spelling of the request whose primary answer is `prim`:
+   equal -> buffer cleared, 0; different -> buffer = "err:spelling:<name>:<alternative answer>", 1 */
+static int o_differs(const char* prim, const char* name)
+{
+    if (strcmp(prim, g_out ? g_out : "") == 0) { o_reset(); return 0; }
+    char* alt = o_take();
+    o_str("err:spelling:"); o_str(name); o_str(":"); o_str(alt);
+    free(alt);
+    return 1;
+}
+static const char* second_token(const char* s)
+{
+    while (*s == ' ') { s++; }
+    while (*s && *s != ' ') { s++; }
+    while (*s == ' ') { s++; }
+    return s;
+}
 
 static size_t hex_decode(const char* s, uint8_t** out)
 {
